@@ -3,6 +3,7 @@ package main
 // Calls: builtins, modelled library functions, contracted callees, inlining.
 
 import (
+	"os"
 	"fmt"
 	"go/token"
 	"go/types"
@@ -391,6 +392,15 @@ func (x *Exec) contractCall(st *State, fr *Frame, con *FuncContract, callee *ssa
 	if callee != nil && !con.Extern && con.Trusted == "" {
 		if s, ok := x.mods[callee]; ok {
 			ms.union(s)
+		}
+	}
+	if con.ImplOf != "" && os.Getenv("GOVC_CANARY_IMPLMODS") == "" { // (env var: engine canary, re-creates a fixed unsoundness)
+		// interface contract derived from a concrete /repo method (implements directive): its effects are the
+		// concrete method's
+		if f := x.P.Funcs[con.ImplOf]; f != nil {
+			if s, ok := x.mods[f]; ok {
+				ms.union(s)
+			}
 		}
 	}
 	if con.Trusted != "" && !con.Extern {
